@@ -119,15 +119,22 @@ MODES = ('parse', 'parse_wc', 'lex', 'lex_yc')
 def check_text(acc, text, opens, origin):
     labels = []
     for mode in MODES:
+        confirmed = acc.extra.get('nontermination_confirmed', 0)
         try:
-            out = run_with_watchdog(lambda: outcome(text, mode), 20)
+            out = run_with_watchdog(lambda: outcome(text, mode), 20 if confirmed < 2 else 3)
         except Timeout:
+            if confirmed >= 2:
+                # two cases already confirmed in this shard: do not spend minutes on every further one
+                acc.label('slow_case_after_confirmed_nontermination')
+                continue
             try:
                 out = run_with_watchdog(lambda: outcome(text, mode), 60)
                 acc.label('watchdog_tripped_once')
             except Timeout:
+                acc.extra['nontermination_confirmed'] = confirmed + 1
                 acc.fail('c12.suspected_nontermination', {'text': text, 'mode': mode, 'origin': origin},
-                         {'bucket': 'nontermination:' + mode}, opens)
+                         {'bucket': 'nontermination:' + mode,
+                          'note': 'no result within 20 s and, re-run alone, within 60 s (median case: ~2 ms)'}, opens)
                 continue
         labels.append(out[0])
         if out[0] == 'exc':
